@@ -130,78 +130,8 @@ theorem mc_ends_stopped_current (sqrt : Q → Q) (pi dh : Q) (conn : Bool) (body
 
 /-- while it is running the commanding thread can never be stuck for good: whenever it has not left, some step
 (its own, the set-point thread's, or the passage of time) is possible -/
-theorem mc_no_deadlock (st : Static) (c : Cfg) (hc : c.code ≠ []) : ¬ Stuck (machine st) c := by
-  intro hs
-  have h0 := hs 0
-  have h1 := hs 1
-  have h2 := hs 2
-  simp only [machine] at h0 h1 h2
-  cases hcode : c.code with
-  | nil => exact hc hcode
-  | cons i rest =>
-    have hme : mainEnabled c = false := by
-      cases hm : mainEnabled c with
-      | false => rfl
-      | true =>
-        exfalso
-        unfold stepMain at h0
-        rw [hcode] at h0
-        unfold mainEnabled at hm
-        rw [hcode] at hm
-        cases i with
-        | prim p => simp only at h0; split at h0 <;> cases h0
-        | setVel s => simp only at h0; split at h0 <;> cases h0
-        | sleep d =>
-          simp only [Bool.or_eq_true, decide_eq_true_eq] at hm
-          simp only at h0
-          split at h0
-          · cases h0
-          · rename_i hd
-            split at h0
-            · cases h0
-            · rename_i hw; cases hm with
-              | inl h => exact hd h
-              | inr h => exact hw h
-        | cleanup s =>
-          cases s with
-          | join =>
-            simp only [Bool.not_eq_true'] at hm
-            simp only [hm] at h0
-            cases h0
-          | _ => cases h0
-        | _ => cases h0
-    unfold stepClock at h2
-    cases hte : thrEnabled c with
-    | true =>
-      unfold thrEnabled at hte
-      simp only [Bool.and_eq_true, Bool.or_eq_true, Bool.not_eq_true', decide_eq_true_eq] at hte
-      unfold stepThr at h1
-      simp only [hte.1, if_true] at h1
-      cases hq : c.thr.queue with
-      | nil =>
-        rw [hq] at h1 hte
-        simp only at h1
-        cases hte.2 with
-        | inl h => simp at h
-        | inr h => simp only [h, if_true] at h1; cases h1
-      | cons e q =>
-        rw [hq] at h1
-        cases e <;> cases h1
-    | false =>
-      simp only [hme, hte, Bool.or_self, Bool.false_eq_true, if_false] at h2
-      cases ha : c.thr.alive with
-      | true => rw [ha] at h2; split at h2 <;> simp_all
-      | false =>
-        rw [ha] at h2
-        -- the thread is dead, so the commanding thread is blocked in a sleep (a join of a dead thread is enabled)
-        unfold mainEnabled at hme
-        rw [hcode] at hme
-        unfold mainWake at h2
-        rw [hcode] at h2
-        cases i with
-        | sleep d => cases h2
-        | cleanup s => cases s <;> simp_all
-        | _ => cases hme
+theorem mc_no_deadlock (st : Static) (c : Cfg) (hc : c.code ≠ []) : ¬ Stuck (machine st) c :=
+  no_deadlock_aux st c hc
 
 /-- **The unrepaired code violates the clause (D15).**  Model with `land` / `take_off` unprotected, `default_height = 0`:
 `take_off` divides by zero inside `__enter__` after the set-point thread was started; the commanding thread leaves
@@ -393,21 +323,8 @@ position) the context is left - normally or through an exception, also one raise
 `_is_flying` cleared and `stop` as the last command sent. -/
 theorem hl_ends_stopped (st : HStatic) (hfin : st.landFinally = true) (s s1 : HL) (body : List HPrim)
     (hin : hlTakeOff st s none none = (s1, none)) (hbody : ∀ p ∈ body, p.isLand = false) :
-    (hlWith st s body).1.flying = false ∧ ∃ rest, (hlWith st s body).1.trace = ((hlWith st s body).1.now, HCmd.stop) :: rest := by
-  have hf1 := hlTakeOff_ok_flying st s s1 none none hin
-  have hf2 := hlBody_keeps_flying st body s1 hbody hf1
-  have hl := hlLand_stops st hfin (hlBody st s1 body).1 none none hf2
-  unfold hlWith
-  rw [hin]
-  simp only
-  cases hb : hlBody st s1 body with
-  | mk s2 eb =>
-    rw [hb] at hl
-    simp only
-    cases hland : hlLand st s2 none none with
-    | mk s3 e3 =>
-      rw [hland] at hl
-      cases e3 <;> exact hl
+    (hlWith st s body).1.flying = false ∧ ∃ rest, (hlWith st s body).1.trace = ((hlWith st s body).1.now, HCmd.stop) :: rest :=
+  hlWith_stops st hfin s s1 body hin hbody
 
 theorem hl_ends_stopped_current (sqrt : Q → Q) (conn : Bool) (s s1 : HL) (body : List HPrim)
     (hin : hlTakeOff (HStatic.ofGen sqrt conn) s none none = (s1, none)) (hbody : ∀ p ∈ body, p.isLand = false) :
